@@ -12,9 +12,10 @@ CONSTANTS
   MSV = {"M1", "M4"}
   MSI = {"MBadEmpty", "MNone"}
   Cmts = {"c1", "c2", "big"}
-  StartOffs = {0, 1, 2}
+  StartOffs = {0, 2, 3, 4}
   EndOffs = {0, 2, 4}
   PoolIds = {}
+  Vias = {"lib", "api"}
   Ops = {"set", "expire", "gc", "restart"}
 VIEW View
 INVARIANTS IndexOK
